@@ -409,6 +409,25 @@ class Engine:
 
     def _run_c10(self, sc, reader, model, trace, V, out, data, bps,
                  max_samples, src_obj):
+        v = self._c10_pass(sc, reader, model, trace, V, out, data, bps,
+                           max_samples, src_obj)
+        if v is not None or not sc["record"]:
+            return v
+        # a recording reader read to exhaustion, rewound, is an AudioReader
+        # again: the framing must be exact on the replay as well
+        try:
+            reader.rewind()
+        except Exception as e:
+            return V("C10.2", "rewind() of a recording reader raised %r" % (
+                e,), "C10.2:rewind_raises")
+        model.rewind()
+        trace.append(["rewind"])
+        out["faults"]["rewind"] = 1
+        return self._c10_pass(sc, reader, model, trace, V, out, data, bps,
+                              max_samples, src_obj)
+
+    def _c10_pass(self, sc, reader, model, trace, V, out, data, bps,
+                  max_samples, src_obj):
         nonempty = 0
         seen_none = 0
         extra = sc["extra_reads"]
